@@ -241,6 +241,8 @@ func RawConsistency(h *Hub, prop string) (*rawScan, *Violation) {
 	uri2id := map[string]uint64{}
 	id2uri := map[uint64]string{}
 	usedIDs := map[uint64]string{}
+	// keys of deleted datasets are invisible and may be half collected by an interrupted GC
+	gone := h.Store.VerifDeletedDatasets()
 	err := db.View(func(txn *badger.Txn) error {
 		it := txn.NewIterator(badger.DefaultIteratorOptions)
 		defer it.Close()
@@ -264,7 +266,7 @@ func RawConsistency(h *Hub, prop string) (*rawScan, *Violation) {
 					id2uri[be64(k[2:])] = string(v)
 				}
 			case server.EntityIDToJSONIndexID:
-				if len(k) == 24 {
+				if len(k) == 24 && !gone[be32(k[10:])] {
 					v, _ := item.ValueCopy(nil)
 					versions[string(k)] = v
 					rid, ds := be64(k[2:]), be32(k[10:])
@@ -276,7 +278,7 @@ func RawConsistency(h *Hub, prop string) (*rawScan, *Violation) {
 					rs.Versions++
 				}
 			case server.DatasetEntityChangeLog:
-				if len(k) == 22 {
+				if len(k) == 22 && !gone[be32(k[2:])] {
 					v, _ := item.ValueCopy(nil)
 					changes[string(v)] = true
 					ds, seq := be32(k[2:]), be64(k[6:])
@@ -286,19 +288,19 @@ func RawConsistency(h *Hub, prop string) (*rawScan, *Violation) {
 					rs.SeqCount[ds]++
 				}
 			case server.DatasetLatestEntities:
-				if len(k) == 14 {
+				if len(k) == 14 && !gone[be32(k[2:])] {
 					v, _ := item.ValueCopy(nil)
 					latest[fmt.Sprintf("%d|%d", be64(k[6:]), be32(k[2:]))] = string(v)
 				}
 			case server.OutgoingRefIndex:
-				if len(k) == 40 {
+				if len(k) == 40 && !gone[be32(k[36:])] {
 					// rid time pred related del ds
 					outgoing[fmt.Sprintf("%d|%d|%d|%d|%d|%d", be64(k[2:]), be64(k[10:]), be64(k[18:]), be64(k[26:]), be16(k[34:]), be32(k[36:]))] = true
 					usedIDs[be64(k[18:])] = "predicate"
 					usedIDs[be64(k[26:])] = "reference target"
 				}
 			case server.IncomingRefIndex:
-				if len(k) == 40 {
+				if len(k) == 40 && !gone[be32(k[36:])] {
 					// related rid time pred del ds  -> normalise to the outgoing tuple order
 					incoming[fmt.Sprintf("%d|%d|%d|%d|%d|%d", be64(k[10:]), be64(k[18:]), be64(k[26:]), be64(k[2:]), be16(k[34:]), be32(k[36:]))] = true
 				}
